@@ -218,6 +218,21 @@ def extra_checks(rng, tier, notes):
                     out.append((case, {"first": np.asarray(r.values).tolist(), "after_another_call": np.asarray(r_again.values).tolist()},
                                 "the same conservative transform gives another result after a transform of a "
                                 "different target_data of the same name and shape on the same Grid"))
+            # the name of target_data is a label: called like the axis' own centre dimension, like the dataset's
+            # coordinate of that name, or anything else, a 1-D profile on the centres bins the same way
+            if td is not None and "zc" in td.dims:
+                td1 = td if td.ndim == 1 else td.isel({d: 0 for d in td.dims if d != "zc"}, drop=True)
+                with warnings.catch_warnings():
+                    warnings.simplefilter("ignore")
+                    named = {}
+                    for nm_ in ("zc", "dens", None):
+                        gN, daN, targetN, kwN, _ = K8.build_grid_call(case)
+                        rN = gN.transform(daN, "Z", targetN, **{**kwN, "target_data": td1.rename(nm_)})
+                        named[nm_] = np.asarray(rN.transpose(*sorted(rN.dims[:-1]), rN.dims[-1]).values)
+                if not all(v.shape == named["dens"].shape and np.array_equal(v, named["dens"], equal_nan=True)
+                           for v in named.values()):
+                    out.append((case, {str(k_): v.tolist() for k_, v in named.items()},
+                                "a 1-D target_data profile on the centres is binned differently depending on its NAME"))
             # the bins are the VALUES of `target`, however it is packaged: a DataArray without a
             # coordinate, or labelled by something else (the edge number), bins the same way
             for pack in ({"target_nocoord": True}, {"target_labels": "index"}):
